@@ -106,6 +106,10 @@ def run_batch(rep, rng, quick, lo, hi, totals):
         elif kd in ("prog", "pdelbr", "pdelterm"):
             src = R.render_tokens(c["toks"])
             add(parse=[src], mode="prog", what="text", kind=kd, a=c["a"], toks=c["toks"], u=wire.units(src))
+        elif kd == "stm":
+            # statement nesting: the tree (re-shaped) and the value of the trace variable
+            src = R.render_tokens(c["toks"])
+            add(parse=[src], mode="stmt", evals=[src], what="stm", kind=kd, a=c["a"], toks=c["toks"])
         elif kd == "cmt":
             # a comment chosen by the specification written into a program: base (hole empty) and variant
             s0 = R.render_holes(c["toks"], {"<L1>": wire.from_units(c["u0"]), "<L2>": wire.from_units(c["u2"])})
@@ -148,6 +152,14 @@ def run_batch(rep, rng, quick, lo, hi, totals):
             add(parse=[s0, s1], mode="prog", evals=[PRE_PROG + s0, PRE_PROG + s1], what="pvariant", kind="pvariant", a=c["a"],
                 toks=c["toks"], lay=lay)
             npv += 1
+    # ... and of a sample of the statement-nesting programs
+    stms = [c for c in cases if c["kind"] == "stm"]
+    nsv = 150 if quick else 1500
+    for c in (rng.sample(stms, nsv) if len(stms) > nsv else stms):
+        lay = R.variant(c["toks"], rng.getrandbits(48), parens=False, vtff=False)
+        s0, s1 = R.render_tokens(c["toks"]), R.render_layout(lay)
+        add(parse=[s0, s1], mode="prog", evals=[s0, s1], what="pvariant", kind="pvariant", a=c["a"], toks=c["toks"], lay=lay)
+        npv += 1
     totals["nvar"] += nvar
     totals["npv"] += npv
     del cases, trees, pairs, triples, chosen
@@ -164,6 +176,8 @@ def run_batch(rep, rng, quick, lo, hi, totals):
             recs.append(rec(r["id"], info["kind"], a=info["a"], toks=info["toks"], act=norm_act(r["parsed"][0])))
         elif w == "text":
             recs.append(rec(r["id"], info["kind"], a=info["a"], toks=info["toks"], u=info["u"], act=norm_act(r["parsed"][0])))
+        elif w == "stm":
+            recs.append(rec(r["id"], "stm", a=info["a"], toks=info["toks"], act=norm_act(r["parsed"][0]), ev1=norm_out(r["evals"][0])))
         elif w == "lit":
             recs.append(rec(r["id"], info["kind"], a=info["a"], u=info["u"], ev0=norm_out(r["evals"][0]), ev1=norm_out(r["evals"][1])))
         elif w == "nctx":
